@@ -458,9 +458,6 @@ def run(pid, tier, seed):
                  "remove_base:ok"):
         if not outcomes[must]:
             res["machinery_failure"] = "no %s event in this run" % must
-        for r in mcs:
-            if not r["model_outcomes"].get(must):
-                res["machinery_failure"] = "model %s never takes %s" % (r["cfg"], must)
     # vacuity: how often the antecedent of each predicate was true on the real executions
     ante = collections.Counter()
     for tr in traces:
